@@ -80,6 +80,26 @@ let handle (toks : string list) : string =
            if cls <> [] then "chk " ^ String.concat "," cls ^ (if model <> impl then " (and model differs)" else "")
            else if model <> impl then "diff session_trace model=" ^ model else "ok nt"
        | _ -> "bad line")
+  | "M" :: size :: ooo :: late :: idle :: base :: rest ->
+      (match split_hash rest with
+       | [ []; ops; obs; ("W" :: curs) ] | [ ops; obs; ("W" :: curs) ] ->
+           let c = { size = zs size; ooo = zs ooo; lateness = zs late; idle = zs idle } in
+           (* "I d": d ns pass; the operations that follow read the later clock *)
+           let rec segs now acc cur = function
+             | [] -> List.rev ((now, List.rev cur) :: acc)
+             | "I" :: d :: r -> segs (Z.add now (zs d)) ((now, List.rev cur) :: acc) [] r
+             | t :: r -> segs now acc (t :: cur) r in
+           let hops = List.concat (List.map (fun (now, toks) -> parse_ops now toks) (segs (zs base) [] [] ops)) in
+           let model = show_trace (run_hops c hops) in
+           let impl = String.concat " " obs in
+           let cl = List.map (fun t -> if t = "-" then None else Some (zs t)) curs in
+           (match wm_regress cl with
+            | Some i -> Printf.sprintf "chk watermark_regressed at_operation=%d observed=%s%s" (int_of_nat i)
+                          (String.concat "," curs) (if model <> impl then " (and model differs)" else "")
+            | None ->
+               if model <> impl then "diff tumbling_trace_idle model=" ^ model
+               else if List.mem "I" ops then "ok nt" else "ok")
+       | _ -> "bad line")
   | "L" :: _win :: "ok" :: _ -> "ok nt"
   | "L" :: win :: "viol" :: rest -> "chk sql_late_update " ^ win ^ " " ^ String.concat " " rest
   | "I" :: size :: ooo :: idle :: nrows :: rest ->
